@@ -6,14 +6,14 @@ Import ListNotations.
 Open Scope Z_scope.
 
 Record case := mkCase
-  { ckey : bulk;
-    cids : list string;        (* the random ids of the RedisLock objects, read back from them *)
-    cops : list op;
+  { cids : list string;        (* the random ids of the RedisLock objects, read back from them *)
+    cops : list (bulk * op);   (* every operation with the key it works on *)
     cobs : list obs }.         (* per operation: what the implementation returned *)
 
 Definition obs_eqb (a b : obs) : bool :=
   match a, b with
   | RB x e, RB y f => Bool.eqb x y && Bool.eqb e f
+  | RT t, RT t' => opt_eqb (opt_eqb Z.eqb) t t'
   | RU, RU => true
   | _, _ => false
   end.
@@ -25,20 +25,45 @@ Fixpoint nodup_str (l : list string) : bool :=
   end.
 
 (* the executor runs on miniredis: expiry_inclusive = true *)
-(* hypotheses of the theorems, as a boolean: distinct ids, time does not run backwards *)
-Definition op_wf (o : op) : bool :=
-  match o with OAdvance ms => 0 <=? ms | OPoke _ (Some t) => 0 <? t | _ => true end.
+(* hypotheses of the theorems, as a boolean: distinct ids, time does not run backwards, the
+   faulty store does not forge a success reply *)
+Definition op_wf (ko : bulk * op) : bool :=
+  match snd ko with
+  | OAdvance ms => 0 <=? ms
+  | OPoke _ (Some t) => 0 <? t
+  | OFault _ rel r => negb (forged_success rel r)
+  | _ => true
+  end.
 Definition wf (c : case) : bool := nodup_str (cids c) && forallb op_wf (cops c).
 
 (* the generated scripts + Go wrappers reproduce what the implementation answered *)
 Definition agrees (c : case) : bool :=
-  list_eqb obs_eqb (run (ckey c) (init true (cids c)) (cops c)) (cobs c).
+  list_eqb obs_eqb (krun (init true (cids c)) (cops c)) (cobs c).
 
-(* the property on the implementation's own answers: they are the answers of the lease
-   specification (one holder until seconds*1000+500 ms after its last successful Acquire or
-   until it releases; only the holder's Release frees) *)
+(* a faulted call is never a success, and an error reply is reported as an error (judged on the
+   implementation's own answers, without the model) *)
+Fixpoint faults_ok (kops : list (bulk * op)) (rs : list obs) : bool :=
+  match kops, rs with
+  | (_, OFault _ _ r) :: kops', x :: rs' =>
+    match x with
+    | RB b e => negb b && match r with RErr _ => e | _ => true end
+    | _ => false
+    end && faults_ok kops' rs'
+  | _ :: kops', _ :: rs' => faults_ok kops' rs'
+  | _, _ => true
+  end.
+
+(* the property on the implementation's own answers: on every key they are the answers of the
+   lease specification (one holder until seconds*1000+500 ms after its last successful Acquire or
+   until it releases; only the holder's Release frees; the TTL right after an Acquire is the
+   lease computed in Z), run on the part of the history that concerns the key *)
 Definition prop_ok (c : case) : bool :=
-  if wf c then list_eqb obs_eqb (sp_run (abs (ckey c) (init true (cids c))) (cops c)) (cobs c)
+  if wf c then
+    forallb (fun k => list_eqb obs_eqb (sp_run (abs k (init true (cids c))) (proj_ops k (cops c)))
+                                        (proj_obs k (cops c) (cobs c)))
+            (map fst (cops c))
+    && faults_ok (cops c) (cobs c)
+    && Nat.eqb (List.length (cops c)) (List.length (cobs c))
   else true.
 
-Definition model_obs (c : case) : list obs := run (ckey c) (init true (cids c)) (cops c).
+Definition model_obs (c : case) : list obs := krun (init true (cids c)) (cops c).
